@@ -144,9 +144,12 @@ impl Dht {
     ) -> Result<(Sender<ActorMessage>, Receiver<Result<(), std::io::Error>>), std::io::Error> {
         let (sender, receiver) = flume::unbounded();
 
+        #[cfg(not(mainline_verif))]
         thread::Builder::new()
             .name("Mainline Dht actor thread".to_string())
             .spawn(move || crate::actor::run(config, receiver))?;
+        #[cfg(mainline_verif)]
+        crate::verif::spawn(Box::new(move || crate::actor::run(config, receiver)))?;
 
         let (tx, rx) = flume::bounded(1);
 
